@@ -866,6 +866,20 @@ fn sticky_case(reg: Reg, front: Front, rng: &mut Prng, col: &mut Collector) {
     if !reg.fixed() && rng.bool() {
         cmds.push(Cmd::DlCh { index: 0, f });
     }
+    // now and then the same kind of sticky request twice in one frame (two channels re-paired, the delay
+    // set twice): two answers, identical octet for octet, and both are repeated
+    if rng.chance(1, 4) {
+        if !reg.fixed() && rng.bool() {
+            cmds.push(Cmd::DlCh { index: 1, f });
+            if !cmds.iter().any(|c| matches!(c, Cmd::DlCh { index: 0, .. })) {
+                cmds.push(Cmd::DlCh { index: 0, f });
+            }
+        } else {
+            let del = rng.below(16) as u8;
+            cmds.push(Cmd::RxTiming { del });
+            cmds.push(Cmd::RxTiming { del });
+        }
+    }
     if rng.bool() {
         cmds.push(Cmd::LinkAdr { dr: 15, p: 15, mask: 0xFFFF, ctl: if reg.fixed() { 6 } else { 0 }, nb: 1 });
     }
